@@ -93,7 +93,13 @@ def clenshaw_rules(run, db):
         carried = {c_: dom.rat(fr.env[c_]) for c_ in sorted(loop_carried(node)) if c_ in fr.env and dom.rat(fr.env[c_]) is not None}
         for c_ in carried:
             fr.env[c_] = dom.sym('carried_' + c_)
+        n_conds = len(it.conds)
         it.exec_block(node.body, fr)
+        branched = [c_ for c_, _ in it.conds[n_conds:] if re.search(r'(?<![A-Za-z0-9_])%s(?![A-Za-z0-9_])' % re.escape(node.target.id), c_)]
+        if branched:
+            # a pass that does one thing at some indices and another thing at others (the top order folded into the loop, ...) is not
+            # one step: reading one of its arms as the step would judge that arm by the general formula
+            raise AnalysisError('%s: the pass branches on the index (`%s`): it is not read as one recurrence step' % (qual, branched[0]))
         if len(stores) != 1:
             raise AnalysisError('%s: expected one store in the recurrence step' % qual)
         g_tgt, g_idx, g_val, g_node, _ = stores[0]
@@ -343,6 +349,15 @@ def _basis_sweep_rules(run, db, only, fixed_decided=False):
             if absm is not None and len(absm.atoms()) == 1 and s_val is not None:
                 s_val = s_val.subs({sorted(absm.atoms())[0]: Rat(R.atom('m'))})
                 extra = extra.subs({sorted(absm.atoms())[0]: Rat(R.atom('m'))})
+        if extra is not None and s_val is not None:
+            # which of m / -m is |m| on the path that was followed is said by the tests on the sign of m taken on it, not by the name of
+            # the local that holds it: `absm = -m if m < 0 else m` keeps `m` itself signed
+            m_ = Rat(R.atom('m'))
+            took = [(c_.replace(' ', ''), t_) for c_, t_ in it.conds]
+            neg = any((c_ in ('m<0', '0>m') and t_) or (c_ in ('m>=0', '0<=m') and not t_) for c_, t_ in took)
+            for cand in ([-m_] if neg else [m_]):
+                if s_val == want_fn(R, c, b, n, cand):
+                    extra = cand
         want = want_fn(R, c, b, n, extra)
         if s_idx is None or s_val is None:
             raise AnalysisError('%s: what the sweep stores (or where) is not followed as a function of the index' % f.name)
@@ -1162,7 +1177,15 @@ def lstsq_rules(run, db):
     run.check(not early, 'C10.lstsq', f.qual, 'mask before cast', 'the finite-mask is computed from the data as given (no cast or arithmetic before it)',
               'the data is rewritten (cast / arithmetic) before the finite-mask is taken: with integer or boolean modes the cast truncates the data and turns NaN/inf samples into ordinary numbers that are no longer ignored', f.loc(node))
     from . import c06
-    c06.sum_rules(run, db, rule='C10.tensordot')
+    from .c06values import modal_sum_decided
+    try:
+        c06.sum_rules(run, db, rule='C10.tensordot')
+    except AnalysisError as e:
+        n_, bad_ = modal_sum_decided(db)
+        if not n_ or bad_:
+            raise
+        run.info('the shape reading of sum_of_2d_modes does not read this organisation (%s); the sums were decided on values (%d instances)' % (str(e)[:140], n_))
+        run.credit('C10.tensordot', 2, 'shape reading refused; decided on values')
 
 
 def check(run, db, tier):
@@ -1187,6 +1210,12 @@ def check(run, db, tier):
                len1_rules: (('jacobi_sum_clenshaw', 'clenshaw_qbfs', 'compute_z_zprime_Qbfs', 'compute_z_zprime_Qcon', 'compute_z_zprime_Q2d'), 'C10.len1', 4)}
     for fn in (clenshaw_rules, basis_rules, assembly_rules, len1_rules, sym_rules, mirror_rules, counter_rules, pack_rules, lstsq_rules):
         run.group(CF.with_fallback(fn, *guarded[fn]) if fn in guarded else fn, run, db)
+    from .c10values import lstsq_value_rules
+    from .c06values import modal_sum_value_rules
+    run.group(lstsq_value_rules, run, db)
+    run.group(modal_sum_value_rules, run, db, 'C10.tensordot')
+    run.forgive('modal_sum_value_rules', ['lstsq_rules'])
+    run.forgive('lstsq_value_rules', ['lstsq_rules'])
     run.require_instances('C10.basis', 9)
     run.require_instances('C10.assembly', 7)
     run.require_instances('C10.clenshaw', 12)
